@@ -122,7 +122,22 @@ def r2(ctx):
         okc = bool(cp) and all(any(re.search(r"call:.*min$", a) for a in Slicer(ctx.w).atoms(tr, t["args"][1])) for t in cp)
         ctx.inst(R, "try_recv_from:clipped-copy", ok and okc, tr.span, "copies min(buffer length, datagram length) bytes" if ok and okc else
                  "the receive copy is not clipped to min(buf.len(), datagram.len())")
-    ctx.floor(R, 3)
+    # what the callers report is the number of bytes copied (the clip computed by Rx::try_recv_from), not the datagram's own length
+    k = 0
+    for b, bb, t in who_calls(ctx.w, "turmoil::net::udp::Rx::try_recv_from"):
+        for bb2, i, st in b.all_stmts():
+            r = st["r"]
+            if i == "term" or r["k"] != "agg" or r.get("variant") != "Ok" or not r.get("ops"):
+                continue
+            at = Slicer(ctx.w).atoms(b, r["ops"][0])
+            if "call:turmoil::net::udp::Rx::try_recv_from" not in at:
+                continue
+            lens = sorted(a for a in at if re.search(r"::len$", a))
+            ctx.inst(R, f"{b.id}:reports-bytes-copied#{k}", not lens, st["s"], "the size returned is the one try_recv_from computed" if not lens else
+                     f"`{b.id}` reports a length it computed itself ({', '.join(lens)}) instead of the number of bytes Rx::try_recv_from copied: a datagram longer than the "
+                     "buffer is reported with its full length although only buf.len() bytes were written")
+            k += 1
+    ctx.floor(R, 5)
 
 
 def r3(ctx):
@@ -203,6 +218,25 @@ def r4(ctx):
             while root.parent and root.parent in ctx.w.bodies:
                 root = ctx.w.bodies[root.parent]
             ctx.inst(R, f"member-key:{root.id}:{callee.rsplit('::', 1)[1]}", ok, t["s"], "member keyed by destination_address" if ok else f"`{root.id}` joins / leaves with a member key other than destination_address(world, self)")
+    # the member key itself: (address of the host the socket lives on, the socket's port). The unicast fan-out sends to that key over
+    # the host's links, so its address part must be routable - only the port is taken from the socket's bind address
+    da_ = ctx.w.bodies.get("turmoil::net::udp::destination_address")
+    if da_:
+        at = set()
+        for bb in da_.exits():
+            at |= Slicer(ctx.w, control=True).atoms(da_, {"c": {"l": 0}})
+        host = "field:turmoil::host::Host::addr" in at
+        from_bind = sorted(a for a in at if re.search(r"SocketAddr(V4|V6)?::(ip|set_ip)$|IpAddr::is_unspecified$|Ipv[46]Addr::is_unspecified$|is_loopback$", a))
+        if not host:
+            # `addr.set_ip(host)` writes through a reference: the slice of the return value does not see it - name the calls instead
+            from_bind = sorted({t["f"] for bb, t in da_.calls(re.compile(r"SocketAddr(V4|V6)?::(ip|set_ip)$|is_unspecified$|is_loopback$"))})
+            host = bool(from_bind)
+        ctx.inst(R, "member-key:host-address-and-port", host and not from_bind, da_.span, "a membership is stored under (host address, port)" if host and not from_bind else
+                 "destination_address builds the member key from the address the socket is *bound* to (" + ", ".join(from_bind) + "): a member bound to 127.0.0.1 is "
+                 "registered under a loopback address, a sender on another host gets ConnectionRefused for that copy and the fan-out stops - members that joined later never get the datagram"
+                 if host else "destination_address no longer takes the address from the current host: re-derive")
+    elif ctx.strict:
+        ctx.bad(R, "anchor-missing:destination_address", "", "turmoil::net::udp::destination_address not found")
     s = ctx.body(R, "turmoil::net::udp::UdpSocket::send")
     if s:
         da = list(s.calls("turmoil::net::udp::MulticastGroups::destination_addresses"))
